@@ -299,6 +299,28 @@ func (vc *VC) instantiatedQuery(mark int, goal Term, sliced bool, lean bool) (st
 		seedList = append(seedList, t, plusSx(t, 1), plusSx(t, -1))
 		plainSeeds = append(plainSeeds, t)
 	}
+	// 1b. existentials the goal has to establish: offer the seed terms as witnesses
+	// (proving one instance proves the existential, so this only strengthens the goal)
+	{
+		var eqs []*sx
+		positiveExists(g, true, &eqs)
+		for _, q := range eqs {
+			vars, body := quantParts(q)
+			if len(vars) != 1 {
+				continue
+			}
+			var alts []*sx
+			for _, t := range seedList {
+				alts = append(alts, body.subst(map[string]*sx{vars[0]: t}))
+			}
+			for d := 0; d < 3; d++ {
+				alts = append(alts, body.subst(map[string]*sx{vars[0]: atomSx(fmt.Sprint(d))}))
+			}
+			if len(alts) > 0 {
+				g = replaceNode(g, q, &sx{kids: append([]*sx{atomSx("or")}, alts...)})
+			}
+		}
+	}
 	// 2. instantiate positive universals of the hypotheses
 	var extra []string
 	total := 0
@@ -500,4 +522,37 @@ func (vc *VC) instantiatedQuery(mark int, goal Term, sliced bool, lean bool) (st
 	b.WriteString(g.String())
 	b.WriteString("))\n(check-sat)\n")
 	return b.String(), total
+}
+
+
+// positiveExists collects exists nodes that occur with positive polarity.
+func positiveExists(n *sx, pos bool, out *[]*sx) {
+	if n == nil || n.kids == nil {
+		return
+	}
+	switch n.head() {
+	case "exists":
+		if pos {
+			*out = append(*out, n)
+		}
+		return
+	case "forall":
+		return
+	case "not":
+		positiveExists(n.kids[1], !pos, out)
+	case "=>":
+		for i := 1; i < len(n.kids)-1; i++ {
+			positiveExists(n.kids[i], !pos, out)
+		}
+		positiveExists(n.kids[len(n.kids)-1], pos, out)
+	case "and", "or":
+		for _, k := range n.kids[1:] {
+			positiveExists(k, pos, out)
+		}
+	case "ite":
+		if len(n.kids) == 4 {
+			positiveExists(n.kids[2], pos, out)
+			positiveExists(n.kids[3], pos, out)
+		}
+	}
 }
